@@ -204,6 +204,7 @@ def run(rep, tier):
     rep.rule('R04.6', 'skeleton agreement: the event/phase skeleton of the emitted uscxml_step equals the fast engine\'s (callbacks through on_exit/on_entry/on_transition/invoke/raise_done_event, ctx->config updates)')
     rep.rule('R04.7', 'index width provenance: the type chosen for the loop variables i, j, k can hold both loop bounds of every emitted machine, i.e. it is selected from the same maxima the two *_TYPE macros come from')
     rep.assume('same trace as the interpreter per chart, per-document tables (C05) and the executable-content functions are not decided here')
+    rep.rule('R04.17', 'every machine is emitted: the list of machines the writers walk is closed under nesting - a machine created for an <invoke> hands the machines nested inside it on to the top-most machine (or knows its top-most machine before it collects them)')
     rep.rule('R04.16', 'executed content is the same: the script text written for the generated machine is assembled over all text and CDATA children of <script>, like the text the interpreter runs (not the first text node only)')
     rep.rule('R04.15', 'initialisation order: the emitted step function runs the document\'s global script after the root\'s data model was initialised (the engines treat it as entry code of <scxml>)')
     rep.rule('R04.14', 'delays mean the same in the generated machine: the generator converts the delay attribute like the executor does (seconds through a floating type so that fractions survive, the same case rule for the unit)')
@@ -474,6 +475,44 @@ def run(rep, tier):
     cdata = any(x_['k'] == 'DeclRefExpr' and x_.get('ref', {}).get('name') == 'CDATA_SECTION_NODE' for x_ in wec.walk())
     rep.check(not fronts and cdata, 'R04.16', 'writeExecContent|script text', locstr(fronts[0]) if fronts else wec.where(), 'the text handed to exec_content_script %s' % (
         'is assembled from every text and CDATA child' if not fronts and cdata else 'is the FIRST text node only%s: <script><![CDATA[..]]></script> reaches the callback with NULL, the interpreter runs it' % ('' if cdata else ' and CDATA sections are not collected')))
+
+    # ---- R04.17 the list of machines the writers walk is closed under "nested machine of"
+    fnm = fb.fn('uscxml::ChartToC::findNestedMachines')
+    ctors = [f_ for f_ in fb.funcs.values() if f_.q == 'uscxml::ChartToC::ChartToC']
+    ctor_calls_fnm = any(x_.get('callee', {}).get('q') == 'uscxml::ChartToC::findNestedMachines' for f_ in ctors for x_ in f_.walk())
+    news = [x_ for x_ in fnm.walk() if x_['k'] == 'CXXNewExpr' and 'ChartToC' in x_.get('t', '')]
+    rep.minimum('R04.17', len(news), 1, '`new ChartToC` sites in findNestedMachines')
+    # registrations into the list of ANOTHER machine (the top-most one): what is pushed there
+    regs = []
+    for x_ in fnm.walk():
+        if x_['k'] == 'CXXMemberCallExpr' and x_.get('callee', {}).get('q', '').split('::')[-1] in ('push_back', 'insert', 'emplace_back', 'splice', 'merge'):
+            me_ = x_['c'][0]
+            if any(y_['k'] == 'MemberExpr' and y_.get('ref', {}).get('name') == '_allMachines' for y_ in sub(me_)) and not any(
+                    y_['k'] == 'CXXThisExpr' and fnm.parent(y_) is not None and strip(fnm.parent(y_)).get('ref', {}).get('name') == '_allMachines' for y_ in sub(me_)):
+                regs.append(x_)
+    rep.minimum('R04.17', len(regs), 1, 'registrations into the top-most machine\'s _allMachines in findNestedMachines')
+    def whole_list(x_):
+        """the registration hands over the created machine's whole _allMachines: a range argument or the variable of a loop over it"""
+        args_ = x_['c'][1:]
+        if any(y_['k'] == 'MemberExpr' and y_.get('ref', {}).get('name') == '_allMachines' for a_ in args_ for y_ in sub(a_)):
+            return True
+        for a_ in fnm.ancestors(x_):
+            if a_['k'] == 'CXXForRangeStmt':
+                rng_ = [d_ for c_ in a_.get('c', []) if c_ and c_['k'] == 'DeclStmt' for d_ in c_.get('decls', []) if d_['name'].startswith('__range')]
+                if any(y_['k'] == 'MemberExpr' and y_.get('ref', {}).get('name') == '_allMachines' for d_ in rng_ if 'init' in d_ for y_ in sub(d_['init'])):
+                    return True
+            if a_['k'] in ('ForStmt', 'WhileStmt') and any(y_['k'] == 'MemberExpr' and y_.get('ref', {}).get('name') == '_allMachines' for y_ in sub(a_['c'][0] if a_['k'] == 'WhileStmt' else a_)
+                                                           if y_['id'] not in {z_['id'] for z_ in sub(x_)}):
+                return True
+        return False
+    # alternative design: the nested machine learns its top-most machine before its own constructor looks for nested machines
+    top_by_ctor = any(i_.get('field') == '_topMostMachine' and any(y_['k'] == 'DeclRefExpr' and y_.get('ref', {}).get('kind') == 'ParmVar' for y_ in sub(i_.get('init') or {}))
+                      for f_ in ctors for i_ in f_.d.get('inits', []))
+    closed = top_by_ctor or not ctor_calls_fnm or any(whole_list(x_) for x_ in regs)
+    rep.check(closed, 'R04.17', 'findNestedMachines|registry closure', locstr(regs[0]) if regs else fnm.where(),
+              'a nested machine is created by a constructor that collects ITS nested machines at once (constructor calls findNestedMachines: %s), while _topMostMachine is still unset; %s' % (
+                  ctor_calls_fnm, 'the creator hands the nested machine\'s whole list on to the top-most machine' if closed else
+                  'the creator registers only the machine itself with the top-most machine: a machine nested two levels deep stays in the intermediate machine\'s list, is referenced by its <invoke> entry but never defined - the emitted C does not compile'))
 
     # ---- R04.15 the global script is the root's entry code: it runs after the root's data was initialised
     cg0 = cgs[alts[0]]
